@@ -21,6 +21,7 @@ def run(ctx):
     lib_gate.gate(ctx, P, only={"tsk_table_collection_ibd_within", "tsk_table_collection_ibd_between", "tsk_ibd_finder_init"})
     lib_ibd.counters(ctx, P)
     lib_ibd.ancestry_append(ctx, P)
+    lib_ibd.finder_run(ctx, P)
     lib_ibd.widening(ctx, P, tus=["tables"])
     lib_module.options_plumbing(ctx, P, funcs={"TableCollection_ibd_segments_within", "TableCollection_ibd_segments_between"})
     lib_module.flags_consumed(ctx, P, funcs={"TableCollection_ibd_segments_within", "TableCollection_ibd_segments_between"})
